@@ -202,6 +202,7 @@ func (r *c21LRepo) SaveStorageOutboxEntry(ctx context.Context, tx *sql.Tx, outbo
 	if r.w.pokeMode.Load() {
 		return nil // wake-up only
 	}
+	c21NextMilli(&r.w.cs.lastMs)
 	err := r.Repository.SaveStorageOutboxEntry(ctx, tx, outboxId, e)
 	if err == nil && e.Id != nil {
 		cs := r.w.cs
@@ -333,6 +334,7 @@ type c21LCase struct {
 	asleep   [2]bool
 	entries  map[string]int
 	pending  int
+	lastMs   int64
 	failed   bool
 	rng      *verifx.Rng
 }
